@@ -77,6 +77,11 @@ def cases(tier, seed):
                     if fam == "perm" and tier == "thorough" and k == 6 and si % 4 != 0:
                         continue
                     yield dict(cfg=ci, pts=list(s), fam=fam)
+    # 110 points (more than 100 rows in every system): the same data in another order gives the same predictions (seed C04-11: column
+    # scales estimated from every n-th row)
+    for ci in (1, 2, 4, 7, 9, 13):
+        for perm in ("reverse", "roll", "interleave", "sorted_e"):
+            yield dict(cfg=ci, pts=[], fam="perm_big", perm=perm)
 
 
 def _spec(ci):
@@ -192,6 +197,28 @@ def run(case, rec):
 
     spec = _spec(case["cfg"])
     pts = [G9[i] for i in case["pts"]]
+    if case["fam"] == "perm_big":
+        i = np.arange(110, dtype=float)
+        be = 12.0 * np.modf(i * 0.6180339887498949)[0] + 0.01 * i
+        bn = 12.0 * np.modf(i * 0.7548776662466927)[0] - 0.003 * i
+        nc_ = ncomp(spec)
+        bd = [3.0 * be - 2.0 * bn + 5.0 * np.sin(0.7 * be) * np.cos(0.9 * bn + k_) for k_ in range(nc_)]
+        ix = {"reverse": np.arange(110)[::-1], "roll": np.roll(np.arange(110), 37), "interleave": np.concatenate([np.arange(0, 110, 2), np.arange(1, 110, 2)]),
+              "sorted_e": np.argsort(be)}[case["perm"]]
+        qe_ = np.array([q[0] for q in QF]); qn_ = np.array([q[1] for q in QF])
+        fac = lambda: _build(spec, 12.0, 110, "ctor")
+        a = _run(rec, fac, (be, bn), bd, (qe_, qn_), "110 points")
+        b = _run(rec, fac, (be[ix], bn[ix]), [d_[ix] for d_ in bd], (qe_, qn_), "110 points, %s" % case["perm"])
+        if a is None or b is None:
+            return
+        sc_ = max(float(np.max(np.abs(d_))) for d_ in bd)
+        for x_, y_ in zip(a, b):
+            err_ = float(np.nanmax(np.abs(x_ - y_)))
+            rec.ratio(err_ / (1e-7 * sc_))
+            rec.check(err_ <= 1e-7 * sc_, "%s on 110 points: predictions change by %.3g (data scale %.3g) when the points are given in %s order"
+                      % (spec[0], err_, sc_, case["perm"]))
+        rec.cls("%s/perm_big" % spec[0])
+        return
     npts = len(pts)
     ext = 12.0
     e = np.array([p[0] for p in pts], dtype=float)
